@@ -141,21 +141,72 @@ def _derives_from(name: str, root: str, fn, depth=0, seen=None) -> list:
     return None
 
 
-def _pair_sites(ctx, f, sets):
-    """[(method, call, Tuple node)] for `S.add((a, b))`, `S.discard((a, b))`, `S.update((a, b) for ..)`."""
+_GROW = ("add", "update")
+_SHRINK = ("discard", "remove", "difference_update")
+
+
+def _pair_sites(ctx, f, sets, of=None):
+    """[(method, node, pair expr, set name)] for every statement that changes one of the dependency-pair sets:
+    `S.add((a, b))`, `S.discard((a, b))`, `S.update((a, b) for ..)`, `S.update([(a, b), ..])`, `S |= {..}`, `S -= {..}`;
+    a pair given through a local (`p = (a, b); S.add(p)`) is resolved through the binding that reaches the statement.
+    A whole edge of `<err>.edges` is reported as its loop variable (ast.Name).  A change that is not understood is an
+    unknown idiom (exit 2), never skipped."""
+    pm = f.module.parents()
+    evars = _error_edge_vars(f)
     out = []
+
+    def resolve(x, st):
+        if isinstance(x, ast.Name) and x.id not in evars and of is not None:
+            binds, entry = of.reaching(x.id, f, st)
+            if len(binds) == 1 and not entry and binds[0][0] is not None:
+                return binds[0][0]
+        return x
+
+    def one(meth, node, arg, sname, st):
+        arg = resolve(arg, st)
+        if isinstance(arg, ast.Tuple):
+            out.append((meth, node, arg, sname))
+        elif isinstance(arg, ast.Name) and arg.id in evars:
+            out.append((meth, node, arg, sname))   # a whole edge of <err>.edges (orientation: see the cycle probe)
+        else:
+            ctx.error(f"{f.key}: `{unparse(node)[:70]}` changes the dependency pairs in a way that is not understood")
+
+    def many(meth, node, arg, sname, st):
+        arg = resolve(arg, st)
+        if isinstance(arg, ast.Call) and isinstance(arg.func, ast.Name) and arg.func.id in ("set", "list", "tuple", "frozenset") and len(arg.args) == 1:
+            arg = resolve(arg.args[0], st)
+        if isinstance(arg, (ast.GeneratorExp, ast.ListComp, ast.SetComp)) and isinstance(arg.elt, ast.Tuple):
+            out.append((meth, node, arg.elt, sname))
+        elif isinstance(arg, (ast.List, ast.Set, ast.Tuple)) and arg.elts and all(isinstance(e, ast.Tuple) for e in arg.elts):
+            for e in arg.elts:
+                out.append((meth, node, e, sname))
+        elif isinstance(arg, (ast.List, ast.Set, ast.Tuple)) and not arg.elts:
+            pass
+        elif isinstance(arg, ast.Name) and arg.id in f.params:
+            pass    # caller-supplied pairs (extra_dependencies): their orientation is the caller's, documented, business
+        else:
+            ctx.error(f"{f.key}: `{unparse(node)[:70]}` changes the dependency pairs in a way that is not understood")
+
     for c in calls_in(f.node):
         fn_ = c.func
         if not (isinstance(fn_, ast.Attribute) and isinstance(fn_.value, ast.Name) and fn_.value.id in sets):
             continue
-        if fn_.attr in ("add", "discard", "remove") and len(c.args) == 1 and isinstance(c.args[0], ast.Tuple):
-            out.append((fn_.attr, c, c.args[0]))
-        elif fn_.attr == "update" and len(c.args) == 1 and isinstance(c.args[0], (ast.GeneratorExp, ast.ListComp, ast.SetComp)) \
-                and isinstance(c.args[0].elt, ast.Tuple):
-            out.append((fn_.attr, c, c.args[0].elt))
-        elif fn_.attr in ("add", "discard", "remove") and len(c.args) == 1 and isinstance(c.args[0], ast.Name) \
-                and c.args[0].id in _error_edge_vars(f):
-            out.append((fn_.attr, c, c.args[0]))   # a whole edge of <err>.edges (orientation: see _gen_edges below)
+        st = enclosing_stmt(pm, c)
+        if fn_.attr in ("add", "discard", "remove") and len(c.args) == 1:
+            one(fn_.attr, c, c.args[0], fn_.value.id, st)
+        elif fn_.attr in ("update", "difference_update") and len(c.args) == 1:
+            many("update" if fn_.attr == "update" else "discard", c, c.args[0], fn_.value.id, st)
+        elif fn_.attr in ("clear", "pop", "intersection_update", "symmetric_difference_update", "update", "difference_update", "add",
+                          "discard", "remove"):
+            ctx.error(f"{f.key}: `{unparse(c)[:70]}` changes the dependency pairs in a way that is not understood")
+    for n in walk_local(f.node):
+        if isinstance(n, ast.AugAssign) and isinstance(n.target, ast.Name) and n.target.id in sets:
+            if isinstance(n.op, ast.BitOr):
+                many("update", n, n.value, n.target.id, n)
+            elif isinstance(n.op, ast.Sub):
+                many("discard", n, n.value, n.target.id, n)
+            else:
+                ctx.error(f"{f.key}: `{unparse(n)[:70]}` changes the dependency pairs in a way that is not understood")
     out.sort(key=lambda x: (x[1].lineno, x[1].col_offset))
     return out
 
@@ -166,82 +217,159 @@ def _error_edge_vars(f):
             if isinstance(n, ast.For) and isinstance(n.target, ast.Name) and isinstance(n.iter, ast.Attribute) and n.iter.attr == "edges"}
 
 
-@R.rule("C14-R1", floor=7, template="T-TABLE",
-        desc="every dependency pair of sort_tables_and_constraints is (prerequisite, dependent table) as "
-             "topological.sort_as_subsets reads it; FK self-references are skipped; cycle breaking and "
-             "CircularDependencyError.edges use the same orientation")
-def r1(ctx):
-    pre_i, dep_i = topo_orientation(ctx)
-    f = ctx.func(STC)
-    pm = f.module.parents()
-    tables_p = f.params[0]
-    # the pair sets: whatever flows into the first argument of topological.sort
-    topo_sort = ctx.func(f"{TOPO}::sort")
+def _handler_edge_ends(f):
+    """[(name, component index, binding statement)] for the names bound to one end of an edge of `<err>.edges`:
+    `x = edge[i]`, `a, b = edge` inside `for edge in err.edges`, or `for a, b in err.edges`."""
+    out = []
+    for n in walk_local(f.node):
+        if not (isinstance(n, ast.For) and isinstance(n.iter, ast.Attribute) and n.iter.attr == "edges"):
+            continue
+        if isinstance(n.target, (ast.Tuple, ast.List)) and len(n.target.elts) == 2 and all(isinstance(e, ast.Name) for e in n.target.elts):
+            out += [(e.id, i, n) for i, e in enumerate(n.target.elts)]
+        if not isinstance(n.target, ast.Name):
+            continue
+        edge = n.target.id
+        for st in walk_local(n):
+            if not isinstance(st, ast.Assign):
+                continue
+            v = st.value
+            for t in st.targets:
+                if isinstance(t, ast.Name) and isinstance(v, ast.Subscript) and isinstance(v.value, ast.Name) and v.value.id == edge \
+                        and isinstance(v.slice, ast.Constant) and isinstance(v.slice.value, int):
+                    out.append((t.id, v.slice.value % 2, st))
+                elif isinstance(t, (ast.Tuple, ast.List)) and isinstance(v, ast.Name) and v.id == edge and len(t.elts) == 2 \
+                        and all(isinstance(e, ast.Name) for e in t.elts):
+                    out += [(e.id, i, st) for i, e in enumerate(t.elts)]
+    return out
+
+
+def _family_owners(node):
+    """names X with `X.foreign_key_constraints` read inside `node`"""
+    return {x.value.id for x in ast.walk(node) if isinstance(x, ast.Attribute) and x.attr == FKCS and isinstance(x.value, ast.Name)}
+
+
+def _pair_sets(ctx, f, topo_sort, defs):
+    """(names of the sets that flow into the pairs argument of topological.sort, the sort calls)"""
     sets = set()
     sorts = [c for c in calls_in(f.node) if (call_name(c) or "").endswith("topological.sort")]
     ctx.require(sorts, "sort_tables_and_constraints no longer calls topological.sort")
     for c in sorts:
         a = arg_for(c, topo_sort, topo_sort.params[0])
         ctx.require(a is not None, "topological.sort called without pairs")
-        sets |= {n.id for n in ast.walk(a) if isinstance(n, ast.Name)}
+        names = {n.id for n in ast.walk(a) if isinstance(n, ast.Name)} - {"set", "frozenset", "list", "tuple"}
+        # `all_pairs = fixed | mutable; topological.sort(all_pairs, tables)`: a once-bound local that is a union of
+        # other sets stands for those sets
+        for _ in range(3):
+            for nm in sorted(names):
+                v = defs.get(nm)
+                if v is None:
+                    continue
+                union = isinstance(v, ast.BinOp) and isinstance(v.op, ast.BitOr) or \
+                    isinstance(v, ast.Call) and isinstance(v.func, ast.Attribute) and v.func.attr == "union" or \
+                    isinstance(v, ast.Call) and isinstance(v.func, ast.Name) and v.func.id in ("set", "frozenset", "list") and v.args
+                if union:
+                    names = (names - {nm}) | ({n.id for n in ast.walk(v) if isinstance(n, ast.Name)} - {"set", "frozenset", "list", "tuple"})
+        sets |= names
+    return sets, sorts
+
+
+def _tables_loops(f, tables_p):
+    def over_param(it):
+        while isinstance(it, ast.Call) and isinstance(it.func, ast.Name) and it.func.id in ("list", "tuple", "iter") and len(it.args) == 1:
+            it = it.args[0]
+        return isinstance(it, ast.Name) and it.id == tables_p
+    return [n for n in walk_local(f.node) if isinstance(n, ast.For) and isinstance(n.target, ast.Name) and over_param(n.iter)]
+
+
+@R.rule("C14-R1", floor=7, template="T-TABLE",
+        desc="every dependency pair of sort_tables_and_constraints is (prerequisite, dependent table) as "
+             "topological.sort reads it (observed by interpreting util.topological on a probe); FK self-references are "
+             "skipped; cycle breaking and CircularDependencyError.edges use the same orientation")
+def r1(ctx):
+    pre_i, dep_i = topo_orientation(ctx)
+    f = ctx.func(STC)
+    pm = f.module.parents()
+    g = ctx.cfg(f)
+    of = topo_flow(ctx)
+    defs = once_bound(f.node)
+    tables_p = f.params[0]
+    # the pair sets: whatever flows into the first argument of topological.sort
+    topo_sort = ctx.func(f"{TOPO}::sort")
+    sets, sorts = _pair_sets(ctx, f, topo_sort, defs)
     ctx.require(len(sets) >= 1, "no dependency-pair sets found")
-    sites = _pair_sites(ctx, f, sets)
+    sites = _pair_sites(ctx, f, sets, of)
     ctx.require(sites, "no dependency pairs are built in sort_tables_and_constraints")
     # the dependent table: loop variable over the `tables` parameter, or (in the cycle handler) a name bound
-    # from `edge[<i>]` where edge iterates `<err>.edges`
-    loop_vars = {n.target.id for n in walk_local(f.node)
-                 if isinstance(n, ast.For) and isinstance(n.target, ast.Name) and isinstance(n.iter, ast.Name) and n.iter.id == tables_p}
+    # to one end of an edge of `<err>.edges` whose foreign key constraints the handler works on
+    loop_vars = {n.target.id for n in _tables_loops(f, tables_p)}
     ctx.require(len(loop_vars) == 1, f"expected one loop variable over `{tables_p}`, found {loop_vars}")
     table = next(iter(loop_vars))
-    for key, (meth, c, tup) in ordinal_keys(sites, lambda s: f"{STC}:{s[1].func.value.id}.{s[0]}"):
+    ends = _handler_edge_ends(f)
+    roots = [table] + [nm for nm, _i, _st in ends if nm != table]
+
+    def role_of(e):
+        """('dependent'|'prerequisite'|'unknown', root table name, attribute chain)"""
+        if isinstance(e, ast.Name):
+            if e.id in roots:
+                return "dependent", e.id, []
+            for r_ in roots:
+                chain = _derives_from(e.id, r_, f)
+                if chain is not None:
+                    return "prerequisite", r_, chain
+            return "unknown", None, None
+        attrs = [a.attr for a in ast.walk(e) if isinstance(a, ast.Attribute)]
+        for nm in sorted({x.id for x in ast.walk(e) if isinstance(x, ast.Name)}):
+            if nm in roots and attrs:
+                return "prerequisite", nm, attrs
+            for r_ in roots:
+                chain = _derives_from(nm, r_, f)
+                if chain is not None:
+                    return "prerequisite", r_, attrs + chain
+        return "unknown", None, None
+
+    for key, (meth, c, tup, sname) in ordinal_keys(sites, lambda s: f"{STC}:{s[3]}.{'update' if s[0] == 'update' else s[0]}"):
         loc = f"{f.module.path}:{c.lineno}"
         if isinstance(tup, ast.Name):
-            ctx.ok(key, f"`{tup.id}` is an edge reported by CircularDependencyError.edges (orientation checked at _gen_edges)")
+            ctx.ok(key, f"`{tup.id}` is an edge reported by CircularDependencyError.edges (orientation checked on the cycle probe)")
             continue
-        ctx.require(len(tup.elts) == 2 and all(isinstance(e, ast.Name) for e in tup.elts),
-                    f"dependency pair `{unparse(tup)}` is not a 2-tuple of names")
-        names = [e.id for e in tup.elts]
-        roles = []
-        for nm in names:
-            if nm == table:
-                roles.append("dependent")
-            else:
-                chain = _derives_from(nm, table, f)
-                roles.append("prerequisite" if chain is not None else "unknown")
+        ctx.require(len(tup.elts) == 2, f"dependency pair `{unparse(tup)}` is not a 2-tuple")
+        info = [role_of(e) for e in tup.elts]
+        roles = [i[0] for i in info]
         ctx.require("unknown" not in roles, f"cannot relate `{unparse(tup)}` to the table being sorted ({table})")
         good = roles[pre_i] == "prerequisite" and roles[dep_i] == "dependent"
         ctx.check(good, key,
-                  f"pair `{unparse(tup)}` has roles {roles} but topological.sort_as_subsets reads index {pre_i} as the "
+                  f"pair `{unparse(tup)}` has roles {roles} but topological.sort reads index {pre_i} as the "
                   f"prerequisite (emitted first) and index {dep_i} as the dependent: the table would be created before "
                   f"the table it references",
                   f"`{unparse(tup)}` = (prerequisite, dependent)", loc)
         # FK derived prerequisite may be the table itself
-        if meth in ("add", "update"):
-            pre = names[roles.index("prerequisite")] if "prerequisite" in roles else None
-            chain = _derives_from(pre, table, f) if pre else None
+        if meth in _GROW and "prerequisite" in roles and "dependent" in roles:
+            pre_e = tup.elts[roles.index("prerequisite")]
+            dep_nm = info[roles.index("dependent")][1]
+            chain = info[roles.index("prerequisite")][2]
             if chain and "referred_table" in chain:
-                atoms = guard_atoms(lexical_guards(pm, enclosing_stmt(pm, c), stop=f.node))
-                skip = (f"{pre} is {table}", False) in atoms or (f"{table} is {pre}", False) in atoms \
-                    or (f"{pre} == {table}", False) in atoms
+                st = enclosing_stmt(pm, c)
+                atoms = cfg_atoms(g, st, defs, keep=roots, extra=comp_guards(pm, tup))
+                spell = {unparse(pre_e), unparse(expand(pre_e, defs, keep=roots))}
+                skip = any((f"{p_} is {dep_nm}", False) in atoms or (f"{dep_nm} is {p_}", False) in atoms
+                           or (f"{p_} == {dep_nm}", False) in atoms for p_ in spell)
                 ctx.check(skip, key + ":self-reference-skipped",
-                          f"pair `{unparse(tup)}` from a foreign key is added without excluding `{pre} is {table}`: a "
+                          f"pair `{unparse(tup)}` from a foreign key is added without excluding `{unparse(pre_e)} is {dep_nm}`: a "
                           f"self-referential foreign key becomes a one-node cycle",
-                          f"guarded by `{pre} is not {table}`", loc)
+                          f"guarded by `{unparse(pre_e)} is not {dep_nm}`", loc)
     # cycle handler: the table whose constraints are deferred is the dependent end of the reported edge
-    handler_tables = []
-    for n in walk_local(f.node):
-        if isinstance(n, ast.For) and isinstance(n.target, ast.Name) and isinstance(n.iter, ast.Attribute) and n.iter.attr == "edges":
-            edge = n.target.id
-            for nm, v, st in name_stores(n):
-                if isinstance(v, ast.Subscript) and isinstance(v.value, ast.Name) and v.value.id == edge \
-                        and isinstance(v.slice, ast.Constant) and isinstance(v.slice.value, int):
-                    handler_tables.append((nm, v.slice.value, st))
-    ctx.require(handler_tables, "cycle handler no longer takes the table from `edge[i]` of err.edges")
-    for nm, idx, st in handler_tables:
-        ctx.check(nm == table and idx == dep_i, f"{STC}:cycle-handler-table",
-                  f"cycle handler binds `{nm} = edge[{idx}]`, but the dependent table (owner of the foreign keys to "
-                  f"defer) is component {dep_i} of an edge",
-                  f"`{nm} = edge[{idx}]` is the dependent end", f"{f.module.path}:{st.lineno}")
+    ctx.require(ends, "cycle handler no longer takes the table from an edge of err.edges (`x = edge[i]` / `a, b = edge`)")
+    owners = set()
+    for nm, idx, st in ends:
+        loop = st if isinstance(st, ast.For) else next((a for a in _anc(pm, st) if isinstance(a, ast.For)), None)
+        if loop is not None and nm in _family_owners(loop):
+            owners.add(nm)
+    used = [(nm, idx, st) for nm, idx, st in ends if nm in owners] or ends
+    for nm, idx, st in used:
+        ctx.check(idx == dep_i, f"{STC}:cycle-handler-table",
+                  f"cycle handler takes `{nm}` from component {idx} of an edge and works on its foreign key constraints, but the "
+                  f"dependent table (owner of the foreign keys to defer) is component {dep_i} of an edge",
+                  f"`{nm}` = component {idx} of the edge: the dependent end", f"{f.module.path}:{st.lineno}")
     # CircularDependencyError.edges: the reported edges are oriented like the input pairs (observed on a cycle probe)
     ge = ctx.func(f"{TOPO}::_gen_edges") if ctx.index.has(f"{TOPO}::_gen_edges") else ctx.func(f"{TOPO}::sort_as_subsets")
     how, got = error_edges_orientation(ctx)
@@ -296,9 +424,10 @@ def r2(ctx):
     of = topo_flow(ctx)
     f = ctx.func(STC)
     # (a) the None entry is appended after the sorted tables
-    rets = [r for r in walk_local(f.node) if isinstance(r, ast.Return) and r.value is not None]
-    ctx.require(len(rets) == 1, "sort_tables_and_constraints: expected one return")
-    rv = rets[0].value
+    vr = virtual_return(f.node)     # `r = [..]; r.append((None, ..)); return r` reads as `[..] + [(None, ..)]`
+    ctx.require(vr is not None, "sort_tables_and_constraints: expected one return")
+    rets = [vr[0]]
+    rv = vr[1]
 
     def none_entry(e):
         return isinstance(e, ast.List) and len(e.elts) == 1 and isinstance(e.elts[0], ast.Tuple) and e.elts[0].elts \
@@ -343,7 +472,7 @@ def r2(ctx):
             for c in calls_in(loop):
                 if not (call_name(c) or "").endswith("traverse_single") or not c.args:
                     continue
-                atoms = guard_atoms(lexical_guards(pm, enclosing_stmt(pm, c), stop=loop))
+                atoms = cfg_atoms(ctx.cfg(m), enclosing_stmt(pm, c), extra=comp_guards(pm, c))
                 notnone = (f"{tvar.id} is None", False) in atoms
                 isnone = (f"{tvar.id} is None", True) in atoms
                 a0 = c.args[0]
@@ -410,14 +539,15 @@ FKCS = "foreign_key_constraints"
 
 def _deferred_set(ctx, f):
     """name of the set returned as the `(None, [deferred constraints])` entry, and the return statement"""
-    rets = [r for r in walk_local(f.node) if isinstance(r, ast.Return) and r.value is not None]
-    ctx.require(len(rets) == 1, "sort_tables_and_constraints: expected one return")
+    vr = virtual_return(f.node)
+    ctx.require(vr is not None, "sort_tables_and_constraints: expected one return")
+    rets = [vr[0]]
     cands = []
-    for t in ast.walk(rets[0].value):
+    for t in ast.walk(vr[1]):
         if isinstance(t, ast.Tuple) and len(t.elts) == 2 and isinstance(t.elts[0], ast.Constant) and t.elts[0].value is None:
             cands = sorted({n.id for n in ast.walk(t.elts[1]) if isinstance(n, ast.Name)} - {"list", "tuple", "set", "sorted"})
     ctx.require(len(cands) == 1, f"cannot name the deferred-constraint set of the (None, ..) entry: {cands}")
-    return cands[0], rets[0]
+    return cands[0], rets[0], vr[1]
 
 
 def _is_fkcs_of(e, table: str) -> bool:
@@ -471,7 +601,7 @@ def _constraint_atoms(guards, cvar, env):
     return out
 
 
-def _collection_origin(ctx, f, expr, table, scope, depth=0):
+def _collection_origin(ctx, f, expr, table, scope, depth=0, at=None):
     """Where do the constraints in `expr` (a collection, or one constraint) come from?
     -> ("family", cvar, conds, label)   iteration over <table>.foreign_key_constraints, conds = [(test, pol)]
        ("single", dictname, store)      one value looked up in a local dict filled with `D[k] = v`
@@ -520,6 +650,16 @@ def _collection_origin(ctx, f, expr, table, scope, depth=0):
         return None
     if isinstance(expr, ast.Name):
         binds = [(v, st) for n, v, st in name_stores(f.node) if n == expr.id and any(st is x or _inside(pm, st, scope) for x in [scope])]
+        if len(binds) != 1 and at is not None:
+            # the same name is bound several times (e.g. `fkc` is the variable of two loops): the loop around the use,
+            # else the one binding that reaches it
+            loops = [a for a in _anc(pm, at) if isinstance(a, ast.For) and isinstance(a.target, ast.Name) and a.target.id == expr.id]
+            if loops:
+                binds = [(None, loops[0])]
+            else:
+                rb, entry = topo_flow(ctx).reaching(expr.id, f, enclosing_stmt(pm, at))
+                if len(rb) == 1 and not entry:
+                    binds = rb
         if len(binds) != 1:
             return None
         v, st = binds[0]
@@ -558,7 +698,7 @@ def r4(ctx):
     ctx.functions_analysed.add(f.key)
     pm = f.module.parents()
     g = ctx.cfg(f)
-    R_, ret = _deferred_set(ctx, f)
+    R_, ret, ret_value = _deferred_set(ctx, f)
     tables_p = f.params[0]
     tloops = [n for n in walk_local(f.node) if isinstance(n, ast.For) and isinstance(n.target, ast.Name)
               and isinstance(n.iter, ast.Name) and n.iter.id == tables_p]
@@ -584,12 +724,23 @@ def r4(ctx):
     conts = [n for n in walk_local(cloop) if isinstance(n, ast.Continue)
              and next((a for a in _anc(pm, n) if isinstance(a, (ast.For, ast.While))), None) is cloop]
     conts.sort(key=lambda n: n.lineno)
-    ctx.require(conts, "the constraint loop has no `continue` (deferral of use_alter / filtered constraints not recognised)")
     head = g.nodes_for(cloop)
     ctx.require(len(head) == 1, "constraint loop head not unique in the CFG")
     starts = head
     defer_nodes = [n.id for n in g.nodes if n.kind == "stmt" and n.stmt is not None and is_defer(n.stmt, cvar)]
     skip_conj = []
+
+    def self_reference_skip(cn):
+        """`continue` taken because the constraint refers to its own table (`fkc.referred_table is table`): such a
+        constraint needs no ordering pair and stays inline -- it is not a deferral case"""
+        atoms = _constraint_atoms(cfg_guards(g, cn), cvar, env)
+        return any(p and t.replace(" ", "") in (f"{C_}.referred_tableis{table}", f"{table}is{C_}.referred_table",
+                                                f"{C_}.referred_table=={table}") for t, p in atoms)
+
+    own_table = [cn for cn in conts if self_reference_skip(cn)]
+    if own_table:
+        ctx.note(f"{STC}: {len(own_table)} `continue` of the constraint loop skip(s) self-referential constraints (no pair needed)")
+    conts = [cn for cn in conts if cn not in own_table]
     for key, cn in ordinal_keys(conts, lambda c: f"{STC}:skipped-constraint-is-deferred"):
         tn = g.nodes_for(cn)
         ctx.require(tn, "continue statement not in the CFG")
@@ -601,6 +752,43 @@ def r4(ctx):
                   f"a constraint that is skipped as a dependency ({(' and '.join(t if p else 'not ' + t for t, p in atoms) or 'continue').replace(C_, cvar)}) "
                   f"is not added to `{R_}` on every path: it is neither ordered for inline rendering nor emitted by ALTER",
                   f"skipped when {atoms}: added to `{R_}` first", f"{f.module.path}:{cn.lineno}", wit)
+    for dn in defer_nodes:
+        st_ = g.nodes[dn].stmt
+        if _inside(pm, st_, cloop):
+            at_ = _constraint_atoms(cfg_guards(g, st_), cvar, env)
+            if at_ and at_ not in skip_conj:
+                skip_conj.append(at_)     # the deferral written as an if/else arm instead of `...; continue`
+    # (a') shape independent: one iteration of the constraint loop either defers the constraint, or adds an ordering
+    #      pair for it, or found it to be a self reference -- whether written with `continue`, if/else or nested ifs
+    topo_sort_ = ctx.func(f"{TOPO}::sort")
+    psets, _s = _pair_sets(ctx, f, topo_sort_, once_bound(f.node))
+    pair_nodes = []
+    for meth, node_, tup, _sn in _pair_sites(ctx, f, psets, topo_flow(ctx)):
+        if meth in _GROW and _inside(pm, node_, cloop) and isinstance(tup, ast.Tuple):
+            srcs = {x.id for e in tup.elts for x in ast.walk(e) if isinstance(x, ast.Name)}
+            if cvar in srcs or any(_derives_from(nm, cvar, f) is not None for nm in srcs if nm != table):
+                pair_nodes += g.nodes_for(enclosing_stmt(pm, node_))
+    blocked = set()
+    for n in g.nodes:
+        if n.kind == "test" and isinstance(n.stmt, ast.If) and _inside(pm, n.stmt, cloop):
+            for lab in ("true", "false"):
+                atoms = _constraint_atoms([(n.stmt.test, lab == "true")], cvar, env)
+                if any(p and t.replace(" ", "") in (f"{C_}.referred_tableis{table}", f"{table}is{C_}.referred_table",
+                                                    f"{C_}.referred_table=={table}") for t, p in atoms):
+                    blocked.add((n.id, lab))
+
+    def in_iteration(a, b, lab):
+        if (a, lab) in blocked:
+            return False
+        nb = g.nodes[b]
+        return b == head[0] or nb.stmt is None or (isinstance(nb.stmt, ast.AST) and _inside(pm, nb.stmt, cloop) and nb.stmt is not cloop)
+
+    wit = g.must_pass(head, head, set(defer_nodes) | set(pair_nodes), edge_ok=in_iteration)
+    ctx.check(wit is None, f"{STC}:constraint-ordered-or-deferred",
+              f"an iteration of the constraint loop can end without an ordering pair for `{cvar}` and without adding it to `{R_}` "
+              f"(and it is no self reference): the constraint is rendered inline in CREATE TABLE although nothing orders the tables",
+              f"every iteration defers `{cvar}` ({len(defer_nodes)} site(s)), adds its pair ({len(pair_nodes)} site(s)) or skips a self "
+              f"reference", f"{f.module.path}:{cloop.lineno}", wit)
     # ------------------------------------------------------------------ the cycle handler
     handler = None
     for n in walk_local(f.node):
@@ -610,19 +798,15 @@ def r4(ctx):
                     handler = h
     ctx.require(handler is not None, "no `except CircularDependencyError` handler")
     evars = _error_edge_vars(f)
-    htables = set()
-    for nm, v, st in name_stores(handler):
-        if isinstance(v, ast.Subscript) and isinstance(v.value, ast.Name) and v.value.id in evars:
-            htables.add(nm)
+    ends = [(nm, i, st) for nm, i, st in _handler_edge_ends(f) if _inside(pm, st, handler)]
+    owners = _family_owners(handler)
+    htables = {nm for nm, i, st in ends if nm in owners} or {nm for nm, i, st in ends}
     ctx.require(len(htables) == 1, f"cycle handler: dependent table of an edge not bound exactly once ({htables})")
     htable = next(iter(htables))
     topo_sort = ctx.func(f"{TOPO}::sort")
-    pair_sets = set()
-    for c in calls_in(f.node):
-        if (call_name(c) or "").endswith("topological.sort"):
-            a = arg_for(c, topo_sort, topo_sort.params[0])
-            if a is not None:
-                pair_sets |= {n.id for n in ast.walk(a) if isinstance(n, ast.Name)}
+    of_ = topo_flow(ctx)
+    pair_sets, _sorts = _pair_sets(ctx, f, topo_sort, once_bound(f.node))
+    all_sites = [(meth, c, tup) for meth, c, tup, _s in _pair_sites(ctx, f, pair_sets, of_)]
     # deferral sites of the handler
     dsites = []
     for c in calls_in(handler):
@@ -634,7 +818,7 @@ def r4(ctx):
     deferred_names = set()
     for key, c in ordinal_keys(dsites, lambda c: f"{STC}:cycle-handler:deferral-covers-table"):
         loc = f"{f.module.path}:{c.lineno}"
-        org = _collection_origin(ctx, f, c.args[0], htable, handler)
+        org = _collection_origin(ctx, f, c.args[0], htable, handler, at=c)
         ctx.require(org is not None, f"cycle handler: cannot tell where `{unparse(c.args[0])[:50]}` (deferred) comes from")
         if isinstance(c.args[0], ast.Name):
             deferred_names.add(c.args[0].id)
@@ -662,7 +846,7 @@ def r4(ctx):
             deferred_cond_atoms.append((c, []))
         ctx.ok(key, f"defers the family `{label}` of the dependent table `{htable}`")
     # (c) discards in the handler
-    discards = [(meth, c, tup) for meth, c, tup in _pair_sites(ctx, f, pair_sets)
+    discards = [(meth, c, tup) for meth, c, tup in all_sites
                 if meth in ("discard", "remove") and _inside(pm, c, handler)]
     ctx.require(discards, "the cycle handler discards no dependency pair")
     for key, (meth, c, tup) in ordinal_keys(discards, lambda s: f"{STC}:cycle-handler:discards-only-deferred"):
@@ -727,7 +911,7 @@ def r4(ctx):
     else:
         # compensation: pairs re-added / discards guarded by something computed from the non-deferred constraints
         comp = []
-        for meth, c, tup in _pair_sites(ctx, f, pair_sets):
+        for meth, c, tup in all_sites:
             if _inside(pm, c, handler) and meth in ("add", "update"):
                 # pairs (re-)added for the constraints of the table that are not deferred
                 srcs = [a.iter for a in _anc(pm, c) if isinstance(a, ast.For) and _inside(pm, a, handler)]
@@ -755,7 +939,7 @@ def r4(ctx):
                           f"{f.module.path}:{handler.lineno}")
     # (e) the result partitions the constraints: inline list = all - deferred, ALTER list = deferred
     inc_ok, why = False, "per-table entry not found"
-    for t in ast.walk(ret.value):
+    for t in ast.walk(ret_value):
         if isinstance(t, ast.Tuple) and len(t.elts) == 2 and isinstance(t.elts[0], ast.Name):
             e = t.elts[1]
             tv = t.elts[0].id
@@ -794,6 +978,17 @@ def _kwarg(call, name):
     return next((k.value for k in call.keywords if k.arg == name), None)
 
 
+def _norm_atoms(guards, defs):
+    """atoms of the guards with once-bound locals (aliases `dialect = self.dialect`, boolean snapshots
+    `can_alter = self.dialect.supports_alter`) replaced by what they stand for"""
+    out = []
+    for t, p in guards:
+        for a in test_atoms(expand(t, defs), p):
+            if a not in out:
+                out.append(a)
+    return out
+
+
 def _only_rebound_to_none_under(ctx, fn, pname):
     """guards [(atoms)] under which parameter `pname` is rebound inside fn; every rebinding must be `= None`"""
     pm = fn.module.parents()
@@ -803,7 +998,7 @@ def _only_rebound_to_none_under(ctx, fn, pname):
             continue
         ctx.require(v is not None and isinstance(v, ast.Constant) and v.value is None,
                     f"{fn.qualname}: `{pname}` is rebound to something other than None (`{unparse(st)[:60]}`)")
-        out.append(guard_atoms(lexical_guards(pm, st, stop=fn.node)))
+        out.append(_norm_atoms(lexical_guards(pm, st, stop=fn.node), once_bound(fn.node)))
     return out
 
 
@@ -851,7 +1046,7 @@ def r5(ctx):
     emit = [n.id for n in g.nodes if n.stmt is not None and isinstance(n.stmt, ast.stmt) and n.kind in ("stmt", "with_enter")
             and any((call_name(c2) or "").rsplit(".", 1)[-1] == "AddConstraint" for part in own_exprs_(n.stmt) for c2 in calls_in(part))]
     ctx.require(emit, "SchemaGenerator.visit_foreign_key_constraint does not emit AddConstraint")
-    emit_guards = set(guard_atoms(g.edge_guards(emit[0])))
+    emit_guards = set(_norm_atoms(g.edge_guards(emit[0]), once_bound(vf.node)))
     reset_atoms = {frozenset(a) for a in resets}
     # reset happens under atoms A (all true); emission must be dominated by the negation of exactly that condition
     agree = len(reset_atoms) == 1 and all(len(a) == 1 for a in reset_atoms) and \
@@ -1044,7 +1239,8 @@ def _complement_problems(ctx, m_, v, table_p, inc_p, depth=0):
 
 # ---------------------------------------------------------------------- self-test battery
 R.mutant("fk-pair-swapped", DDL,
-         sub("                mutable_dependencies.add((dependent_on, table))", "                mutable_dependencies.add((table, dependent_on))"), "C14-R1")
+         sub("            if dependent_on is not table:\n                mutable_dependencies.add((dependent_on, table))\n",
+             "            if dependent_on is not table:\n                mutable_dependencies.add((table, dependent_on))\n"), "C14-R1")
 R.mutant("extra-deps-swapped", DDL,
          sub("            (parent, table) for parent in table._extra_dependencies", "            (table, parent) for parent in table._extra_dependencies"), "C14-R1")
 R.mutant("select-dep-swapped", DDL,
@@ -1196,3 +1392,92 @@ R.mutant("benign-generator-logging", DDL,
 R.mutant("benign-generator-list-copy", DDL,
          sub("        collection = sort_tables_and_constraints(\n            [t for t in tables if self._can_create_table(t)]\n        )",
              "        creatable = [t for t in tables if self._can_create_table(t)]\n        collection = list(sort_tables_and_constraints(creatable))"), None)
+
+# ---- rob-E1: benign families (stored refactors rfB_1, rfE_4..6, rfE_10..12 and further variants of the same spirit)
+_TOPO_EMIT_LOOP = ("        output = []\n        for node in todo:\n            if todo_set.isdisjoint(edges[node]):\n"
+                   "                output.append(node)\n")
+R.mutant("benign-e1-topo-ready-comprehension", TOPO,
+         sub(_TOPO_EMIT_LOOP, "        output = [node for node in todo if todo_set.isdisjoint(edges[node])]\n"), None)
+R.mutant("benign-e1-topo-ready-flag-local", TOPO,
+         sub(_TOPO_EMIT_LOOP, "        output = []\n        for node in todo:\n            waiting_for = edges[node]\n"
+                              "            ready = todo_set.isdisjoint(waiting_for)\n            if not ready:\n                continue\n"
+                              "            output.append(node)\n"), None)
+R.mutant("benign-e1-gen-edges-loop", TOPO,
+         sub("    return {(right, left) for left in edges for right in edges[left]}",
+             "    result = set()\n    for dependent, dependencies in edges.items():\n        for dependency in dependencies:\n"
+             "            result.add((dependency, dependent))\n    return result"), None)
+R.mutant("benign-e1-topo-edges-setdefault", TOPO,
+         sub("    edges: DefaultDict[_T, Set[_T]] = util.defaultdict(set)\n    for parent, child in tuples:\n        edges[child].add(parent)\n",
+             "    edges: DefaultDict[_T, Set[_T]] = util.defaultdict(set)\n    for pair in tuples:\n        prerequisite, dependent = pair\n"
+             "        edges[dependent] |= {prerequisite}\n"), None)
+R.mutant("topological-emits-in-item-order", TOPO,
+         sub("            if todo_set.isdisjoint(edges[node]):\n", "            if todo_set.isdisjoint(edges[None]):\n"), "C14-R1")
+_MAIN_PAIR = ("                    continue\n\n            dependent_on = fkc.referred_table\n            if dependent_on is not table:\n"
+              "                mutable_dependencies.add((dependent_on, table))\n")
+R.mutant("benign-e1-self-reference-early-continue", DDL,
+         sub(_MAIN_PAIR, "                    continue\n\n            dependent_on = fkc.referred_table\n            if dependent_on is table:\n"
+                         "                continue\n            mutable_dependencies.add((dependent_on, table))\n"), None)
+R.mutant("benign-e1-pair-through-local", DDL,
+         sub(_MAIN_PAIR, "                    continue\n\n            dependent_on = fkc.referred_table\n            if dependent_on is not table:\n"
+                         "                ordering_pair = (dependent_on, table)\n                mutable_dependencies.add(ordering_pair)\n"), None)
+R.mutant("self-reference-early-continue-wrong-test", DDL,
+         sub(_MAIN_PAIR, "                    continue\n\n            dependent_on = fkc.referred_table\n            if dependent_on is None:\n"
+                         "                continue\n            mutable_dependencies.add((dependent_on, table))\n"), "C14-R1")
+_FIRST_SORT = ("    try:\n        candidate_sort = list(\n            topological.sort(\n"
+               "                fixed_dependencies.union(mutable_dependencies),\n                tables,\n            )\n        )\n")
+R.mutant("benign-e1-all-dependencies-local", DDL,
+         sub(_FIRST_SORT, "    try:\n        all_dependencies = fixed_dependencies | mutable_dependencies\n"
+                          "        candidate_sort = list(topological.sort(all_dependencies, tables))\n"), None)
+R.mutant("benign-e1-handler-unpacks-edge", DDL,
+         sub("                table = edge[1]\n", "                _referred, table = edge\n"), None)
+R.mutant("handler-unpacks-edge-swapped", DDL,
+         sub("                table = edge[1]\n", "                table, _referred = edge\n"), "C14-R1")
+_RESULT = ("    return [\n        (table, table.foreign_key_constraints.difference(remaining_fkcs))\n        for table in candidate_sort\n"
+           "    ] + [(None, list(remaining_fkcs))]")
+R.mutant("benign-e1-result-built-in-steps", DDL,
+         sub(_RESULT, "    result = [\n        (table, table.foreign_key_constraints.difference(remaining_fkcs))\n        for table in candidate_sort\n"
+                      "    ]\n    result.append((None, list(remaining_fkcs)))\n    return result"), None)
+R.mutant("result-steps-none-entry-first", DDL,
+         sub(_RESULT, "    result = [(None, list(remaining_fkcs))]\n    result.extend(\n        (table, table.foreign_key_constraints.difference(remaining_fkcs))\n"
+                      "        for table in candidate_sort\n    )\n    return result"), "C14-R2")
+_GEN_EMIT = ("                if table is not None:\n                    self.traverse_single(\n                        table,\n"
+             "                        create_ok=True,\n                        include_foreign_key_constraints=fkcs,\n"
+             "                        _is_metadata_operation=True,\n                    )\n                else:\n"
+             "                    for fkc in fkcs:\n                        self.traverse_single(fkc)\n")
+R.mutant("benign-e1-generator-early-continue", DDL,
+         sub(_GEN_EMIT, "                if table is None:\n                    for fkc in fkcs:\n                        self.traverse_single(fkc)\n"
+                        "                    continue\n                self.traverse_single(\n                    table,\n"
+                        "                    create_ok=True,\n                    include_foreign_key_constraints=fkcs,\n"
+                        "                    _is_metadata_operation=True,\n                )\n"), None)
+R.mutant("generator-early-continue-drops-constraints", DDL,
+         sub(_GEN_EMIT, "                if table is None:\n                    continue\n                self.traverse_single(\n                    table,\n"
+                        "                    create_ok=True,\n                    include_foreign_key_constraints=fkcs,\n"
+                        "                    _is_metadata_operation=True,\n                )\n"), "C14-R2")
+R.mutant("benign-e1-visit-table-dialect-alias", DDL,
+         sub("            if not self.dialect.supports_alter:\n                # e.g., don't omit any foreign key constraints\n"
+             "                include_foreign_key_constraints = None\n",
+             "            dialect = self.dialect\n            if not dialect.supports_alter:\n"
+             "                include_foreign_key_constraints = None\n"), None)
+R.mutant("benign-e1-alter-emitter-positive-guard", DDL,
+         sub("    def visit_foreign_key_constraint(self, constraint):\n        if not self.dialect.supports_alter:\n            return\n\n"
+             "        with self.with_ddl_events(constraint):\n            AddConstraint(constraint, isolate_from_table=True)._invoke_with(\n"
+             "                self.connection\n            )\n",
+             "    def visit_foreign_key_constraint(self, constraint):\n        can_alter = self.dialect.supports_alter\n        if can_alter:\n"
+             "            with self.with_ddl_events(constraint):\n                AddConstraint(\n                    constraint, isolate_from_table=True\n"
+             "                )._invoke_with(self.connection)\n"), None)
+
+_SKIPS = ("            if fkc.use_alter is True:\n                remaining_fkcs.add(fkc)\n                continue\n\n"
+          "            if filter_fn:\n                filtered = filter_fn(fkc)\n\n                if filtered is True:\n"
+          "                    remaining_fkcs.add(fkc)\n                    continue\n\n"
+          "            dependent_on = fkc.referred_table\n            if dependent_on is not table:\n"
+          "                mutable_dependencies.add((dependent_on, table))\n")
+R.mutant("benign-e1-deferral-as-else-chain", DDL,
+         sub(_SKIPS, "            if fkc.use_alter is True:\n                remaining_fkcs.add(fkc)\n"
+                     "            elif filter_fn and filter_fn(fkc) is True:\n                remaining_fkcs.add(fkc)\n"
+                     "            else:\n                dependent_on = fkc.referred_table\n                if dependent_on is not table:\n"
+                     "                    mutable_dependencies.add((dependent_on, table))\n"), None)
+R.mutant("else-chain-filtered-constraint-dropped", DDL,
+         sub(_SKIPS, "            if fkc.use_alter is True:\n                remaining_fkcs.add(fkc)\n"
+                     "            elif filter_fn and filter_fn(fkc) is True:\n                pass\n"
+                     "            else:\n                dependent_on = fkc.referred_table\n                if dependent_on is not table:\n"
+                     "                    mutable_dependencies.add((dependent_on, table))\n"), "C14-R4")
